@@ -158,6 +158,19 @@ theorem bare_buffer_step_breaks_scale_invariance :
     bare.si = 1 / 400 ∧ aware.si = 1 / 4 ∧ (1 / g.si) * (1 / g.si) = 1 / 4 := by
   decide +kernel
 
+/-- integer inputs: in every chain of the regenerated table (copy; in place under both readings of a
+    returned object) no call applies a negative whole power (`np.reciprocal`, `np.power(·, -n)`) to
+    an operand that is still an integer array when the caller's array has an integer dtype — the
+    calls where NumPy's integer arithmetic leaves the real-number formula (`1/3 → 0`, `ValueError`) -/
+theorem table_integer_safe : equivalences.all (fun e => e.branches.all Branch.intSafe) = true := by
+  decide +kernel
+
+/-- the reading of `np.reciprocal(x)` on an integer array is flagged, `np.true_divide(1, x)` is not -/
+theorem reciprocal_on_integers_flagged :
+    (⟨[⟨.pow (-1), [.buf], false⟩], some (.tmp 0)⟩ : Trace).intSafe false = false ∧
+    (⟨[⟨.div, [.c (.lit 1), .buf], false⟩], some (.tmp 0)⟩ : Trace).intSafe false = true := by
+  decide
+
 /-! ### non-vacuity -/
 
 /-- a concrete instance of the hypotheses of `chain_units_si_noPow`: the chain `x / c`
